@@ -76,8 +76,8 @@ func rowSupply(t, r, c string) Row { return Row{fmt.Sprintf("RSupply %s %s %s", 
 func rowCreditType(abbrev, name, unit string, precision int64) Row {
 	return Row{fmt.Sprintf("RCreditType %s %s %s %s", cs(abbrev), cs(name), cs(unit), common.CoqZi(precision))}
 }
-func rowAddr(a int) Row    { return Row{"RAddr " + ca(a)} }
-func rowStr(s string) Row  { return Row{"RStr " + cs(s)} }
+func rowAddr(a int) Row      { return Row{"RAddr " + ca(a)} }
+func rowStr(s string) Row    { return Row{"RStr " + cs(s)} }
 func rowAmount(s string) Row { return Row{"RAmount " + cs(s)} }
 func rowBasket(id uint64, denom, name string, dar bool, ct, criteria string, exponent int64, curator int) Row {
 	return Row{fmt.Sprintf("RBasket %s %s %s %s %s %s %s %s", cn(id), cs(denom), cs(name), common.CoqBool(dar), cs(ct), criteria, common.CoqZi(exponent), ca(curator))}
@@ -165,8 +165,8 @@ type Item struct {
 	List   bool // returns a list (paged or not)
 	// Present tells whether the filter argument refers to something in the state
 	Present bool
-	exec   func(pg *query.PageRequest) ([]Row, *query.PageResponse, error)
-	oracle func() ([]Row, int)
+	exec    func(pg *query.PageRequest) ([]Row, *query.PageResponse, error)
+	oracle  func() ([]Row, int)
 }
 
 func (sc *Scenario) classRows(cs []*base.ClassInfo) []Row {
